@@ -307,7 +307,7 @@ def gen_seq(tier, seed):
             extra = ([["rc"], ["rna" if mt == "dna" else "dna"]] if nuc else []) + ([["degap"]] if "-" in parent else [])
             red = seq_slice_ops(L, rich=False)
             rich = seq_slice_ops(L, rich=True)
-            d1 = (rich if L <= 8 else rich[::2] + red) if thorough else red[::2] + (rich[::3] if parent == "ABCDE" else [])
+            d1 = (rich if L <= 8 else rich[::2] + red) if thorough else red[::3] + (rich[::4] if parent == "ABCDE" else [])
             if L == 0:
                 d1 = red = [["s", None, None, None], ["s", None, None, -1], ["s", 0, 1, 2]]
             for off, fid, info in roots:
@@ -521,7 +521,7 @@ def coll_histories(kind, rid, thorough, rnd):
     if thorough:
         chains += pairs + [[rnd.choice(base) for _ in range(3)] for _ in range(30)]
     else:
-        chains += pairs[::5]
+        chains += pairs[::8]
     return chains
 
 
@@ -801,6 +801,8 @@ def contract_tree(case):
         fl.append("inner-node")
     if any(nm is None for nm in names):
         fl.append("unnamed-node")
+    if len(set(names)) < len(names):
+        fl.append("duplicate-names")
     nc = tree_name_class(names)
     if nc:
         fl.append("name:" + nc)
@@ -1950,7 +1952,7 @@ BOUNDED = {
         "bound": "old and new Sequence types x dna/rna/protein/text/bytes parents of length 0..10 x annotation_offset {0,5,3} x "
                  "{no features, 2-3 features incl. multi-span and minus strand} x info {none, 2 keys} x histories: every "
                  "slice a,b in [-L-1,L+1]+None, c in {None,+-1,+-2,+-3} (L=10: every 2nd of them + the reduced set a,b in "
-                 "{None,-2,0,1,2,L-1,L+1}, c in {None,-1,+-2}; quick: every 2nd of the reduced set, every 3rd of the full set "
+                 "{None,-2,0,1,2,L-1,L+1}, c in {None,-1,+-2}; quick: every 3rd of the reduced set, every 4th of the full set "
                  "for the text parent), rc, to_rna/to_dna, degap; depth 2 and 3: seeded sample over the reduced set; x channels "
                  "json, rich, pickle, copy",
         "rule": "a case = (type, moltype, parent, offset, feature set, info, history, channel); non-trivial when the "
@@ -1963,7 +1965,7 @@ BOUNDED = {
                       "deserialise.deserialise_seq_collections", "deserialise.deserialise_aligned"],
         "bound": "Alignment, ArrayAlignment, old and new SequenceCollection x 4 fixed row sets (dna 3x10 and 2x6 with gaps and "
                  "ambiguity codes, protein 3x6, single sequence) x {unannotated, sequence features, + alignment feature} x "
-                 "histories of depth <= 2 (thorough: all pairs + depth-3 sample; quick: every 5th pair) over take_seqs, "
+                 "histories of depth <= 2 (thorough: all pairs + depth-3 sample; quick: every 8th pair) over take_seqs, "
                  "take_seqs(negate), rename_seqs, column slices, rc, to_rna, degap, omit_gap_pos, take_positions, add_feature on "
                  "the view x targets {collection, get_seq (also sliced / reverse complemented), get_gapped_seq, Aligned member, "
                  "SeqsData} x channels json, rich, pickle",
